@@ -9,6 +9,7 @@ import re
 
 VERIF = os.path.dirname(os.path.dirname(os.path.dirname(os.path.abspath(__file__))))
 REPO = os.environ.get('GLAM_REPO', '/repo')
+OUT = os.environ.get('GLAM_VERIF_OUT', VERIF)     # side runs (seed matrix, selftest) redirect evidence/ and reports/ here
 CACHE = os.path.join(VERIF, '.cache', 'facts')
 DRIVER = os.path.join(VERIF, 'engine', 'driver', 'target', 'release', 'glam-facts')
 FACTS_SH = os.path.join(VERIF, 'engine', 'facts.sh')
@@ -198,7 +199,7 @@ def finish(ctx, level, explanation, technique, checker_cmd):
     prop = ctx.prop
     known = [k for k in load_known() if k.get('property') == prop and k.get('status', 'known') == 'known']
     known_keys = {k['key']: k for k in known}
-    rep_dir = os.path.join(VERIF, 'reports', prop)
+    rep_dir = os.path.join(OUT, 'reports', prop)
     os.makedirs(rep_dir, exist_ok=True)
     for f in os.listdir(rep_dir):
         try:
@@ -289,8 +290,8 @@ def finish(ctx, level, explanation, technique, checker_cmd):
         'wall_s': round(wall, 2),
         'violations': nviol,
     }
-    os.makedirs(os.path.join(VERIF, 'evidence'), exist_ok=True)
-    with open(os.path.join(VERIF, 'evidence', prop + '.json'), 'w') as f:
+    os.makedirs(os.path.join(OUT, 'evidence'), exist_ok=True)
+    with open(os.path.join(OUT, 'evidence', prop + '.json'), 'w') as f:
         json.dump(ev, f, indent=1, default=str)
     return 1 if nviol else 0
 
